@@ -32,12 +32,16 @@ func draw(t *rapid.T) sim.ChainCase {
 		MinBlocks: 8, MaxBlocks: 34, Reorgs: true, MaxReorg: 3, Profile: sim.Profile{Contracts: 1, MaxTxns: 5},
 		OnBlock: func(g *sim.Gen, b *sim.Builder) {
 			// blocks that revise a contract and then revise it again or renew it (legal), as a base for second-use probes
-			if rapid.IntRange(0, 5).Draw(g.T, "reviseScenario") == 0 && b.V2Revise() {
-				if rapid.Bool().Draw(g.T, "againOrRenew") {
-					b.V2ReviseAgainInBlock()
-				} else {
-					b.V2RenewRevisedInBlock()
-				}
+			if rapid.IntRange(0, 5).Draw(g.T, "reviseScenario") == 0 {
+				b.AfterV1(func() {
+					if b.V2Revise() {
+						if rapid.Bool().Draw(g.T, "againOrRenew") {
+							b.V2ReviseAgainInBlock()
+						} else {
+							b.V2RenewRevisedInBlock()
+						}
+					}
+				})
 			}
 		},
 		BeforeApply: func(g *sim.Gen, honest types.Block, bs consensus.V1BlockSupplement) {
